@@ -17,7 +17,7 @@ theorem routeM_expr (e : Env) (fuel : Nat) (ctx : Ctx) (hctx : NM ctx) (n : ANod
     proseText (best w 0 [⟨0, .brk, d.fam u⟩]) = (specProse n).toList ∧
     litText (best w 0 [⟨0, .brk, d.fam u⟩]) = (specLit n).toList ∧
     verbText (best w 0 [⟨0, .brk, d.fam u⟩]) = (specVerb n).toList := by
-  have hc := (knot_frag e fuel).expr ctx n hctx hx hq k d k' h
+  have hc := (knot_frag e fuel).1.expr ctx n hctx hx hq k d k' h
   obtain ⟨hg, hs⟩ := hc
   have lay := pretty_lay w (d.fam u)
   have em := fun c => d.emits hg u c .brk _ lay
@@ -35,7 +35,7 @@ theorem routeM_expr_all_layouts (e : Env) (fuel : Nat) (ctx : Ctx) (hctx : NM ct
     (hl : Lay m (d.fam u) xs) :
     tokText xs = (specToks n).toList ∧ cmtText xs = (specCmts n).toList ∧ proseText xs = (specProse n).toList ∧
     litText xs = (specLit n).toList ∧ verbText xs = (specVerb n).toList := by
-  have hc := (knot_frag e fuel).expr ctx n hctx hx hq k d k' h
+  have hc := (knot_frag e fuel).1.expr ctx n hctx hx hq k d k' h
   obtain ⟨hg, hs⟩ := hc
   have em := fun c => d.emits hg u c m xs hl
   have hs' : ∀ c, (d.ss.get c) = (specAll n).get c := fun c => by rw [hs]
@@ -61,7 +61,7 @@ theorem routeM_document (e : Env) (root : Node) (hk : (prepare root).kind = .mar
   · rename_i d' s' hrun
     simp only [Except.ok.injEq, Prod.mk.injEq] at h
     obtain ⟨rfl, _⟩ := h
-    have hc := (knot_frag e _).markup {} (prepare root) .document (by intro h; cases h) hk hq _ _ _ hrun
+    have hc := (knot_frag e _).1.markup {} (prepare root) .document (by intro h; cases h) hk hq _ _ _ hrun
     obtain ⟨hg, hs⟩ := hc
     unfold tokensCertified commentsCertified verbatimCertified proseCertified literalsCertified
       Twin.Doc.toks Twin.Doc.cmts Twin.Doc.verbs Twin.Doc.prose Twin.Doc.lits
